@@ -127,7 +127,7 @@ func (g *goBuilder) value(x *sx, t types.Type, depth int) string {
 
 // genericFuncReplay handles obligations of a top-level function whose parameters are plain values.
 func genericFuncReplay(w *World, o *Obligation, q *Query, _ map[string]string) (string, string) {
-	if q.Fn == nil || q.Fn.Pkg == nil || len(q.Fn.FreeVars) > 0 {
+	if q.Fn == nil || q.Fn.Pkg == nil || len(q.Fn.FreeVars) > 0 || q.Status != "sat" {
 		return "", ""
 	}
 	fn := q.Fn
